@@ -261,6 +261,11 @@ func (r *vssRun) deliverDeal(i int, replay bool) {
 		d.RI = d.I
 	case "t-out-of-range":
 		d.T = rapid.SampledFrom([]uint32{0, 1, uint32(r.n + 1), 1 << 20}).Draw(r.t, "badt")
+		if r.sidExact && rapid.Bool().Draw(r.t, "badt-own-sid") {
+			// ... announced under the session id that these commitments have WITH the lying threshold,
+			// so that nothing but the range test itself stands in the way
+			d.SID = r.refSID(d.Commits, d.T)
+		}
 	case "t-differs":
 		if int(r.th) < r.n {
 			d.T = r.th + 1
